@@ -3,6 +3,7 @@ Split synchronisation (property C09). Core Lean only — the driver links this f
 
 Model ↔ code map
   `Chunk`, `Reply`              api.SynchronizeRequest / api.SynchronizeResponse (pods, containers, more / update, more)
+  `stubClose`, `stubSessions`   pkg/stub/stub.go  (*stub).close() resetting `stub.syncReq`; one stub object restarted
   `RState`, `collectSync`,
   `deliverSync`, `stubRPC`      pkg/stub/stub.go  (*stub).Synchronize / collectSync / deliverSync
                                 (`acc` is `stub.syncReq`; `calls` logs invocations of the plugin's handler)
@@ -101,6 +102,20 @@ def allPods {α β : Type} : List (Chunk α β) → List α
 def allCtrs {α β : Type} : List (Chunk α β) → List β
   | [] => []
   | c :: rest => c.ctrs ++ allCtrs rest
+
+/-- `(*stub).close()` as far as synchronisation goes: the connection is gone, whatever the
+    stub had collected of a split request is discarded (`stub.syncReq = nil`). The handler log
+    is the observer's, it is kept. `reset = false` transcribes a `close` that forgets to. -/
+def stubClose {α β : Type} (reset : Bool) (st : RState α β) : RState α β :=
+  if reset then { st with acc := none } else st
+
+/-- Several sessions of ONE stub object (Start … connection lost … Start again): each session's
+    chunks are fed in order, `close` runs between sessions. A session may be abandoned (its
+    last chunk never arrives). -/
+def stubSessions {α β υ ε : Type} (reset : Bool) (h : Handler α β υ ε) :
+    RState α β → List (List (Chunk α β)) → RState α β
+  | st, [] => st
+  | st, s :: rest => stubSessions reset h (stubClose reset (stubRun h st s).1) rest
 
 /-- Chunks of one synchronisation as the protocol intends them: all but the last flagged
     `more`, the last one not. -/
